@@ -168,6 +168,25 @@ where
     ev.end();
 }
 
+/// iter::Sum / iter::Product of 0..=4 elements, over values and over references (the fold spelling of + and *)
+fn fold_ev<F: Ext>(ev: &mut Ev, lay: Lay, xs: &[u128])
+where
+    F::Bits: BitsIo,
+{
+    ev.begin("fold", lay);
+    ev.arg(xs.len() as u128);
+    for x in xs {
+        ev.arg(*x);
+    }
+    ev.sep();
+    let v: Vec<F> = xs.iter().map(|x| fb(*x)).collect();
+    ev.rec_v(&mut || tb(F::x_sum_val(&v)));
+    ev.rec_v(&mut || tb(F::x_sum_ref(&v)));
+    ev.rec_v(&mut || tb(F::x_prod_val(&v)));
+    ev.rec_v(&mut || tb(F::x_prod_ref(&v)));
+    ev.end();
+}
+
 fn drive<F: Ext>(ev: &mut Ev, args: &Args, lay: Lay)
 where
     F::Bits: BitsIo,
@@ -254,6 +273,30 @@ where
         let (a, b) = gen_div_pair(&mut rng2, lay);
         do_op::<F>(ev, lay, "div", a, b);
     }
+    // Sum / Product folds: empty, one element (must come back unchanged on every layout, including those that cannot
+    // represent 1), and 2..4 elements small enough for the running result to stay representable most of the time
+    let mut rng3 = args.rng_for(lay, 103);
+    fold_ev::<F>(ev, lay, &[]);
+    for &x in [0u128, 1, lay.max_bits(), lay.min_bits(), lay.mask()].iter() {
+        fold_ev::<F>(ev, lay, &[x]);
+    }
+    for _ in 0..args.n / 4 {
+        let k = 1 + rng3.below(4) as usize;
+        let xs: Vec<u128> = (0..k)
+            .map(|_| {
+                if rng3.chance(1, 3) {
+                    gen_bits(&mut rng3, lay)
+                } else {
+                    // magnitude about 2^(f +- few): products of a few such values stay in range when there are integer bits
+                    let top = (lay.f + rng3.below(3) as u32).min(lay.n - lay.signed as u32).max(1);
+                    let len = 1 + rng3.below(top as u64) as u32;
+                    let v = rng3.next128() & mask(len);
+                    if lay.signed && rng3.chance(1, 2) { v.wrapping_neg() & lay.mask() } else { v }
+                }
+            })
+            .collect();
+        fold_ev::<F>(ev, lay, &xs);
+    }
 }
 
 fn main() {
@@ -265,11 +308,17 @@ fn main() {
             let want = parse_lay(&l[1]);
             let a = parse_hex(&l[2]);
             let b = l.get(3).map(|s| parse_hex(s)).unwrap_or(0);
-            assert!(OPS.contains(&l[0].as_str()), "unknown op");
+            let is_fold = l[0] == "fold";
+            let xs: Vec<u128> = if is_fold { l[3..].iter().map(|s| parse_hex(s)).collect() } else { Vec::new() };
+            assert!(is_fold || OPS.contains(&l[0].as_str()), "unknown op");
             macro_rules! one {
                 ($fam:ident, $u:ident, $s:expr, $n:expr, $f:expr) => {
                     if (Lay::new($s, $n, $f)) == want {
-                        do_op::<$fam<$u>>(&mut ev, want, &l[0], a, b);
+                        if is_fold {
+                            fold_ev::<$fam<$u>>(&mut ev, want, &xs);
+                        } else {
+                            do_op::<$fam<$u>>(&mut ev, want, &l[0], a, b);
+                        }
                     }
                 };
             }
